@@ -43,6 +43,20 @@ def basis_term(env, ty, k=0, form="symbol"):
     not bypass the typing rules) or a compound term (an ITE over two symbols)."""
     label = "declIntSort" if ty == SINT else tystr(ty)
     x = sym("x%s_%d" % (label, k), ty)
+    if form in ("zero", "one"):
+        # the neutral / absorbing constants, where constructors take their shortcuts
+        v = 0 if form == "zero" else 1
+        if ty == BOOL:
+            return pys.build(env, B.const(BOOL, bool(v)))
+        if ty == INT:
+            return pys.build(env, B.const(INT, v))
+        if ty == REAL:
+            return pys.build(env, B.const(REAL, Fraction(v)))
+        if ty == STRING:
+            return pys.build(env, B.const(STRING, "" if v == 0 else "1"))
+        if is_bv(ty):
+            return pys.build(env, B.const(ty, v))
+        form = "constant"
     if form == "constant":
         if ty == BOOL:
             return pys.build(env, B.const(BOOL, k % 2 == 0))
@@ -65,7 +79,7 @@ def basis_term(env, ty, k=0, form="symbol"):
     return pys.build(env, x)
 
 
-FORMS = ("symbol", "constant", "term")
+FORMS = ("symbol", "constant", "term", "zero", "one")
 
 
 # ---- expected signatures: fn(list of types[, params]) -> type or None (= ill-typed)
